@@ -84,12 +84,14 @@ impl AllowedPeer {
 impl OwnedInvite {
     #[verifier::external_body]
     pub fn clone(&self) -> (r: OwnedInvite) ensures r == *self { unimplemented!() }
-    /// deletes the sys.OwnedInvite row `id` (database effect: TRUSTED, not modelled)
+    /// deletes the sys.OwnedInvite row `id`: the fact `invite_row_deleted` is established by this contract only
     #[verifier::external_body]
-    pub async fn delete(id: Uid, db: &GraphDatabaseService) -> (r: std::result::Result<(), DbError>) { unimplemented!() }
+    pub async fn delete(id: Uid, db: &GraphDatabaseService) -> (r: std::result::Result<(), DbError>) ensures r is Ok ==> invite_row_deleted(id) { unimplemented!() }
     #[verifier::external_body]
     pub async fn list_valid(room_id: String, db: &GraphDatabaseService) -> (r: std::result::Result<Vec<OwnedInvite>, crate_error::Error>) { unimplemented!() }
 }
+/// the stored row of an own invitation has been deleted (so a restart does not bring the invitation back)
+pub uninterp spec fn invite_row_deleted(id: Uid) -> bool;
 pub struct DefaultRoom { pub room: String, pub authorisation: String }
 impl Invite {
     #[verifier::external_body]
@@ -342,6 +344,9 @@ pub proof fn lemma_kept_then_consumed(a: Map<MeetingToken, Vec<TokenType>>, b: M
                             assert(<[u8; 16] as PartialEqSpec<[u8; 16]>>::obeys_eq_spec());
 //@ insert before-stmt "i.invite_id.eq(&invite.invite_id)"
                             assert(<[u8; 16] as PartialEqSpec<[u8; 16]>>::obeys_eq_spec());
+//@ insert before-stmt "let mut param = Parameters::new();"
+                        // [invitation_row_deleted_before_the_fallible_room_grant] the stored row of a used invitation is deleted before the default-room grant, which may fail: a failed grant must not leave an invitation that a restart makes valid again
+                        assert(invite_row_deleted(owned.id));
 //@ closure "|tt|" #1 ret bool
         ensures b == is_owned(*tt, owned.id)
 //@ closure "|tt|" #2 ret bool
@@ -361,6 +366,8 @@ pub proof fn lemma_kept_then_consumed(a: Map<MeetingToken, Vec<TokenType>>, b: M
         no_invitation_added(old(self).table(), final(self).table()),
         // [only_the_used_invitation_disappears] whatever the outcome, every other entry (allowed peers, other invitations) is still answered
         only_consumed_dropped(old(self).table(), final(self).table(), token_type),
+        // [used_owned_invitation_row_deleted] a successful consumption has deleted the stored row of the invitation
+        r is Ok && token_type is OwnedInvite ==> invite_row_deleted(token_type->OwnedInvite_0.id),
         // [invitation_consumed_whenever_peer_admitted] also when a later step fails: a peer is never admitted through an invitation that stays valid
         token_type is OwnedInvite && owned_at_most_once(old(self).table(), token_type->OwnedInvite_0.id) && final(self).peers().len() > old(self).peers().len()
             ==> !table_has_owned(final(self).table(), token_type->OwnedInvite_0.id),
